@@ -107,6 +107,79 @@ Qed.
 Lemma truthy_iff o : truthy o = true <-> o = Some true.
 Proof. destruct o as [[|]|]; cbn; split; congruence. Qed.
 
+(* ---------- the configuration as written ---------- *)
+Lemma lower_strip_empty : lower (strip "") = "".
+Proof. reflexivity. Qed.
+
+(* a value that says yes is stored as a true value: "true" becomes True, every other such text is a
+   non-empty string, a number other than 0 and True are themselves *)
+Lemma says_yes_stored v : says_yes v -> stored v = Some true.
+Proof.
+  destruct v as [| |b|z|s]; cbn [says_yes]; try contradiction.
+  - intros ->. reflexivity.
+  - intros Hz. unfold stored. cbn [load_special_val py_true]. destruct (Z.eqb_spec z 0); [contradiction|reflexivity].
+  - intros Hin. unfold stored, load_special_val.
+    destruct (String.eqb s "true") eqn:Et; [reflexivity|].
+    destruct (String.eqb s "false") eqn:Ef.
+    + apply String.eqb_eq in Ef. subst s. exfalso. vm_compute in Hin. intuition discriminate.
+    + destruct s as [|a r]; [|reflexivity]. exfalso. vm_compute in Hin. intuition discriminate.
+Qed.
+
+(* ... and the values that say no but are stored as a true value (which is how the certificate-only option was read
+   before 9e47ced6) are exactly the non-empty texts, other
+   than the exact text "false", that read false / no / off / 0 / blank: the class of finding C07-F2 *)
+Definition misread_no (v : cval) : Prop :=
+  exists s, v = CStr s /\ s <> "" /\ s <> "false" /\ In (lower (strip s)) no_words.
+
+Lemma says_no_stored_true v : (says_no v /\ stored v = Some true) <-> misread_no v.
+Proof.
+  unfold misread_no. split.
+  - intros [Hn Hs]. destruct v as [| |b|z|s]; cbn [says_no] in Hn; try discriminate.
+    + subst b. discriminate.
+    + subst z. discriminate.
+    + exists s. split; [reflexivity|]. unfold stored, load_special_val in Hs.
+      destruct (String.eqb s "true") eqn:Et.
+      { apply String.eqb_eq in Et. subst s. exfalso. vm_compute in Hn. intuition discriminate. }
+      destruct (String.eqb s "false") eqn:Ef; [discriminate|].
+      apply String.eqb_neq in Ef. destruct s as [|a r]; [discriminate|].
+      split; [discriminate|]. split; [exact Ef|exact Hn].
+  - intros (s & -> & Hne & Hnf & Hin). split; [exact Hin|].
+    unfold stored, load_special_val.
+    destruct (String.eqb s "true") eqn:Et.
+    { apply String.eqb_eq in Et. subst s. exfalso. vm_compute in Hin. intuition discriminate. }
+    destruct (String.eqb s "false") eqn:Ef; [apply String.eqb_eq in Ef; contradiction|].
+    destruct s as [|a r]; [contradiction Hne; reflexivity|reflexivity].
+Qed.
+
+(* the certificate-only option as the code reads it now (9e47ced6) *)
+Lemma says_yes_stored_ovc v : says_yes v -> stored_ovc v = Some true.
+Proof.
+  destruct v as [| |b|z|s]; cbn [says_yes]; try contradiction.
+  - intros ->. reflexivity.
+  - intros Hz. unfold stored_ovc. cbn [load_special_val py_true]. destruct (Z.eqb_spec z 0); [contradiction|reflexivity].
+  - intros Hin. unfold stored_ovc, load_special_val.
+    destruct (String.eqb s "true") eqn:Et; [reflexivity|].
+    destruct (String.eqb s "false") eqn:Ef.
+    + apply String.eqb_eq in Ef. subst s. exfalso. vm_compute in Hin. intuition discriminate.
+    + f_equal. apply mem_In. exact Hin.
+Qed.
+
+Lemma yes_not_no w : In w yes_words -> ~ In w no_words.
+Proof. intros Hy Hn. cbn in Hy, Hn. intuition (subst; discriminate). Qed.
+
+(* ... is never on for a value that says no *)
+Lemma stored_ovc_not_no v : stored_ovc v = Some true -> ~ says_no v.
+Proof.
+  destruct v as [| |b|z|s]; cbn [says_no]; try discriminate.
+  - cbn. intros E ->. discriminate.
+  - unfold stored_ovc. cbn [load_special_val py_true]. intros E ->. discriminate.
+  - unfold stored_ovc, load_special_val.
+    destruct (String.eqb s "true") eqn:Et.
+    { apply String.eqb_eq in Et. subst s. intros _ Hn. vm_compute in Hn. intuition discriminate. }
+    destruct (String.eqb s "false") eqn:Ef; [discriminate|].
+    intros E. apply yes_not_no. apply mem_In. change yes_words with OVC_YES. congruence.
+Qed.
+
 Section Proofs.
   Variables key cert esig dsig doc : Type.
   Variable cert_of : key -> cert.
@@ -218,7 +291,7 @@ Section Proofs.
   (* ---------- soundness: the property holds for every input ---------- *)
   Theorem soundness (x : input) : spec cert_of esign dsign x (parse x).
   Proof.
-    unfold spec. intros Hv. cbv zeta.
+    unfold spec, spec_with. intros Hv. cbv zeta.
     apply accept_inv in Hv. cbv zeta in Hv.
     destruct Hv as (Hu & Hk & Henv & Hred & Hvi & Hver & Hd & Ht).
     split; [|split; [|split; [|split]]].
@@ -271,6 +344,79 @@ Section Proofs.
     intros Hreq Hb Hn Hacc. pose proof (soundness x Hacc) as [H _]. cbv zeta in H.
     destruct (H Hreq) as [H1 _]. destruct (H1 Hb) as (k & sa & sg & Ha & Hg & _).
     destruct Hn as [Hn|Hn]; congruence.
+  Qed.
+
+  (* ---------- the property for the configuration as written ---------- *)
+  Lemma spec_with_mono (R R' C C' : Prop) (x : input) v :
+    (R' -> R) -> (C -> C') ->
+    spec_with cert_of esign dsign R C x v -> spec_with cert_of esign dsign R' C' x v.
+  Proof.
+    unfold spec_with. intros HR HC H Hv. specialize (H Hv). cbv zeta in *.
+    destruct H as (H1 & H2 & H3). split; [|split; [|exact H3]].
+    - intros Hr. apply H1. apply HR. exact Hr.
+    - intros e He. destruct (H2 e He) as [Hl|Hr]; [left; exact Hl|right; apply HC; exact Hr].
+  Qed.
+
+  Lemma requires_src_loaded (s : source) (x : input) : requires_src s -> requires_signed (cfg (load_src s x)).
+  Proof.
+    unfold requires_src, requires_signed, cert_only, load_src, load_src_with. cbn [cfg want_signed only_valid_cert].
+    intros [H|H]; [left; apply says_yes_stored|right; apply says_yes_stored_ovc]; exact H.
+  Qed.
+
+  Lemma cert_only_loaded (s : source) (x : input) : cert_only (cfg (load_src s x)) -> cert_only_src s.
+  Proof.
+    unfold cert_only, cert_only_src, load_src, load_src_with. cbn [cfg only_valid_cert]. apply stored_ovc_not_no.
+  Qed.
+
+  (* whatever holds of a receiver configured from s in the in-memory reading holds in the as-written reading *)
+  Lemma spec_src_of_spec (s : source) (x : input) v :
+    spec cert_of esign dsign (load_src s x) v -> spec_src cert_of esign dsign s (load_src s x) v.
+  Proof.
+    unfold spec, spec_src. apply spec_with_mono; [apply requires_src_loaded|apply cert_only_loaded].
+  Qed.
+
+  Theorem soundness_src (s : source) (x : input) :
+    spec_src cert_of esign dsign s (load_src s x) (parse (load_src s x)).
+  Proof. apply spec_src_of_spec, soundness. Qed.
+
+  (* ---- before 9e47ced6 (finding C07-F2): the same held only outside the misread class *)
+  Definition src_guard (s : source) : Prop := ~ misread_no (s_ovc s).
+
+  Lemma requires_src_loaded_v0 (s : source) (x : input) : requires_src s -> requires_signed (cfg (load_src_v0 s x)).
+  Proof.
+    unfold requires_src, requires_signed, cert_only, load_src_v0, load_src_with, stored_ovc_v0.
+    cbn [cfg want_signed only_valid_cert].
+    intros [H|H]; [left|right]; apply says_yes_stored; exact H.
+  Qed.
+
+  Lemma cert_only_loaded_v0 (s : source) (x : input) :
+    src_guard s -> cert_only (cfg (load_src_v0 s x)) -> cert_only_src s.
+  Proof.
+    unfold src_guard, cert_only, cert_only_src, load_src_v0, load_src_with, stored_ovc_v0. cbn [cfg only_valid_cert].
+    intros Hg Hst Hno. apply Hg. apply says_no_stored_true. split; [exact Hno|exact Hst].
+  Qed.
+
+  Theorem soundness_src_v0 (s : source) (x : input) :
+    src_guard s -> spec_src cert_of esign dsign s (load_src_v0 s x) (parse (load_src_v0 s x)).
+  Proof.
+    intros Hg. generalize (soundness (load_src_v0 s x)). unfold spec, spec_src. apply spec_with_mono.
+    - apply requires_src_loaded_v0.
+    - apply cert_only_loaded_v0. exact Hg.
+  Qed.
+
+  (* the signing requirement itself needs no guard: however the requirement is spelled, a request that must
+     be signed and is not is not processed *)
+  Theorem unsigned_rejected_src (s : source) (x : input) :
+    requires_src s -> binding x <> Some BINDING_HTTP_REDIRECT -> env x = None -> parse (load_src s x) <> Accept.
+  Proof.
+    intros Hreq Hb He. apply (unsigned_rejected (load_src s x)); [apply requires_src_loaded; exact Hreq|exact Hb|exact He].
+  Qed.
+
+  Theorem unsigned_redirect_rejected_src (s : source) (x : input) :
+    requires_src s -> binding x = Some BINDING_HTTP_REDIRECT ->
+    (sigalg x = None \/ signature x = None) -> parse (load_src s x) <> Accept.
+  Proof.
+    intros Hreq Hb Hn. apply (unsigned_redirect_rejected (load_src s x)); [apply requires_src_loaded; exact Hreq|exact Hb|exact Hn].
   Qed.
 
   (* the query entry points never see a detached signature: under a signing requirement nothing
@@ -460,6 +606,19 @@ Section Proofs.
     revert st. induction ops as [|o t IH]; intros st; [constructor|].
     destruct o as [r x|r m|r]; cbn [run_life]; [|apply IH|apply IH].
     constructor; [apply soundness|apply IH].
+  Qed.
+
+  (* ... also in the as-written reading, for every request whose receiver was configured from a source
+     outside the finding class (with_md and load_src commute: metadata and options are separate fields) *)
+  Lemma with_md_load_src (s : source) (x : input) m : with_md (load_src s x) m = load_src s (with_md x m).
+  Proof. reflexivity. Qed.
+
+  Theorem life_sound_src st (ops : list op) :
+    Forall (fun p => forall s x0, fst p = load_src s x0 -> spec_src cert_of esign dsign s (fst p) (snd p))
+           (life st ops).
+  Proof.
+    pose proof (life_sound st ops) as H. revert H. apply Forall_impl.
+    intros [x v] Hs s x0 E. cbn [fst snd] in *. subst x. apply spec_src_of_spec; assumption.
   Qed.
 
   Lemma md_certs_with_md (x : input) m : md_certs (cfg (with_md x m)) = m.
